@@ -5,7 +5,7 @@
 From Coq Require Import List ZArith Bool Permutation Sorted.
 From SVC Require Import Base.AMap Base.Res Base.Dec Model.Types Model.Pricing Model.Handlers
   Model.Queries.
-From SVC Require Proofs.QueryProofs.
+From SVC Require Proofs.QueryProofs Proofs.Inv Proofs.ReachProps.
 Import ListNotations.
 Open Scope Z_scope.
 
@@ -183,3 +183,13 @@ Print Assumptions C17_same_answers.
 Theorem C17_q_params : forall cfg, q_params cfg = AOk cfg.
 Proof. exact QueryProofs.C17_q_params. Qed.
 Print Assumptions C17_q_params.
+
+(* the hypotheses of the theorems above hold in every reachable state *)
+Theorem C17_hypotheses_hold :
+  forall (cfg : Types.Params) (s : State),
+    SVC.Proofs.Inv.wf_cfg cfg -> SVC.Proofs.Inv.Reach cfg s ->
+    idx_own_bind_ok s /\ reqs_have_ctx s
+    /\ wf (defs s) /\ wf (binds s) /\ wf (ctxs s) /\ wf (reqs s) /\ wf (resps s)
+    /\ wf (wdaddr s) /\ wf (earned s) /\ NoDup (own_bind s).
+Proof. exact SVC.Proofs.ReachProps.query_hypotheses. Qed.
+Print Assumptions C17_hypotheses_hold.
